@@ -1,6 +1,7 @@
 pub mod c02;
 pub mod c03;
 pub mod c04;
+pub mod c05;
 pub mod c06;
 pub mod c07;
 pub mod c08;
@@ -11,6 +12,8 @@ pub mod c13;
 pub mod c14;
 pub mod c15;
 pub mod c16;
+pub mod c17;
+pub mod c18;
 pub mod c19;
 pub mod c20;
 
@@ -24,6 +27,7 @@ pub fn parts_for(property: &str) -> Option<Vec<Box<dyn PartDyn>>> {
         "C04" => c04::parts(),
         "C08" => c08::parts(),
         "C09" => c04::parts_c09(),
+        "C05" => c05::parts(),
         "C06" => c06::parts(),
         "C07" => c07::parts(),
         "C10" => c10::parts(),
@@ -33,10 +37,12 @@ pub fn parts_for(property: &str) -> Option<Vec<Box<dyn PartDyn>>> {
         "C14" => c14::parts(),
         "C15" => c15::parts(),
         "C16" => c16::parts(),
+        "C17" => c17::parts(),
+        "C18" => c18::parts(),
         "C19" => c19::parts(),
         "C20" => c20::parts(),
         _ => return None,
     })
 }
 
-pub const ALL: &[&str] = &["C01", "C02", "C03", "C04", "C06", "C07", "C08", "C09", "C10", "C11", "C12", "C13", "C14", "C15", "C16", "C19", "C20"];
+pub const ALL: &[&str] = &["C01", "C02", "C03", "C04", "C05", "C06", "C07", "C08", "C09", "C10", "C11", "C12", "C13", "C14", "C15", "C16", "C17", "C18", "C19", "C20"];
